@@ -45,6 +45,10 @@ type C30Scn struct {
 	Clients     []C30Client `json:"clients"`
 	Rotate      bool        `json:"rotate"`            // replace the certificate files and perform the documented reload step
 	UpdateFirst bool        `json:"update_first"`      // an unrelated UpdatePolicyOptions before the rotation
+	// HalfFirst: the rotation replaces certificate AND key, in two steps with a reload after each: the first
+	// reload meets the new certificate with the old key and fails (the old certificate stays in service), the
+	// second one, after the key has been replaced too, is the documented step
+	HalfFirst   bool        `json:"half_first,omitempty"`
 	EarlyReload bool        `json:"early_reload,omitempty"` // another ReloadCertificates call, started before the files are replaced, overlaps with the rotation
 	Restart     bool        `json:"restart,omitempty"` // between the two halves: stop, replace the CA file (same path) by another CA, start a new server instance
 	Sched       SchedCfg    `json:"sched"`
@@ -53,6 +57,8 @@ type C30Scn struct {
 type c30PKIT struct {
 	caPEM, foreignPEM, srvAPEM, srvBPEM, leafKeyPEM []byte
 	srvADER, srvBDER                                []byte
+	// a server certificate for ANOTHER key pair: a rotation that replaces certificate and key in two steps
+	srvCPEM, srvCDER, leafKey2PEM []byte
 	cliSelf, cliGood, cliForeign                    tls.Certificate
 }
 
@@ -73,7 +79,7 @@ func c30MakePKI() (*c30PKIT, error) {
 			}
 			return k
 		}
-		caKey, foreignKey, leafKey := newKey(), newKey(), newKey()
+		caKey, foreignKey, leafKey, leafKey2 := newKey(), newKey(), newKey(), newKey()
 		if c30Err != nil {
 			return
 		}
@@ -108,6 +114,7 @@ func c30MakePKI() (*c30PKIT, error) {
 		}
 		_, srvA := mk(10, "server-AAA", false, &leafKey.PublicKey, ca, caKey, false)
 		_, srvB := mk(11, "server-BBB", false, &leafKey.PublicKey, ca, caKey, false)
+		_, srvC := mk(12, "server-CCC", false, &leafKey2.PublicKey, ca, caKey, false)
 		_, self := mk(20, "client-sel", false, &leafKey.PublicKey, nil, leafKey, true)
 		_, good := mk(21, "client-goo", false, &leafKey.PublicKey, ca, caKey, true)
 		_, bad := mk(22, "client-for", false, &leafKey.PublicKey, foreign, foreignKey, true)
@@ -128,6 +135,7 @@ func c30MakePKI() (*c30PKIT, error) {
 		}
 		c30pki = &c30PKIT{caPEM: pemOf("CERTIFICATE", caDER), foreignPEM: pemOf("CERTIFICATE", foreignDER), srvAPEM: pemOf("CERTIFICATE", srvA), srvBPEM: pemOf("CERTIFICATE", srvB),
 			leafKeyPEM: pemOf("RSA PRIVATE KEY", x509.MarshalPKCS1PrivateKey(leafKey)), srvADER: srvA, srvBDER: srvB,
+			srvCPEM: pemOf("CERTIFICATE", srvC), srvCDER: srvC, leafKey2PEM: pemOf("RSA PRIVATE KEY", x509.MarshalPKCS1PrivateKey(leafKey2)),
 			cliSelf:    tls.Certificate{Certificate: [][]byte{self}, PrivateKey: leafKey},
 			cliGood:    tls.Certificate{Certificate: [][]byte{good}, PrivateKey: leafKey},
 			cliForeign: tls.Certificate{Certificate: [][]byte{bad}, PrivateKey: leafKey}}
@@ -217,6 +225,7 @@ func runC30(t *testing.T, scAny any, trace bool) *Outcome {
 		accepted = true
 		defer w.Stop()
 		wantLeaf := pki.srvADER
+		var rotatedLeaf []byte
 		rotated := false
 		doRotate := func() {
 			if sc.UpdateFirst {
@@ -243,18 +252,31 @@ func runC30(t *testing.T, scAny any, trace bool) *Outcome {
 			if early != nil {
 				defer func() { simrt.Recv("early.wait", early) }()
 			}
-			os.WriteFile(certFile, pki.srvBPEM, 0o600)
+			newPEM, newDER := pki.srvBPEM, pki.srvBDER
+			if sc.HalfFirst {
+				newPEM, newDER = pki.srvCPEM, pki.srvCDER
+			}
+			os.WriteFile(certFile, newPEM, 0o600)
 			opts := w.NFS.GetExportOptions()
 			o.Tick()
 			if opts.TLS == nil {
 				o.Vio("C30.rotation-step-unavailable", "", "GetExportOptions().TLS is nil although TLS is enabled")
 				return
 			}
+			if sc.HalfFirst {
+				// half-done: new certificate, old key. Whatever this reload answers, the step that counts is the one
+				// made after the key has been replaced as well (on the same settings object, as an operator retrying would)
+				err := opts.TLS.ReloadCertificates()
+				simrt.Event("reload with mismatched pair: failed=%v", err != nil)
+				simrt.Probe("reload_met_half_done_rotation")
+				os.WriteFile(keyFile, pki.leafKey2PEM, 0o600)
+			}
 			if err := opts.TLS.ReloadCertificates(); err != nil {
 				o.Vio("C30.rotation-step-failed", "", "the documented rotation step failed: %v", err)
 				return
 			}
-			wantLeaf = pki.srvBDER
+			wantLeaf = newDER
+			rotatedLeaf = newDER
 			rotated = true
 			simrt.Probe("rotated")
 		}
@@ -278,7 +300,7 @@ func runC30(t *testing.T, scAny any, trace bool) *Outcome {
 				defer w.Stop()
 				goodKind = 3
 				if rotated {
-					wantLeaf = pki.srvBDER
+					wantLeaf = rotatedLeaf
 				}
 				simrt.Probe("restarted_with_other_ca")
 			}
@@ -340,7 +362,7 @@ func runC30(t *testing.T, scAny any, trace bool) *Outcome {
 					if len(st.PeerCertificates) > 0 {
 						got = st.PeerCertificates[0].Subject.CommonName
 					}
-					o.Vio("C30.stale-certificate-after-rotation", fmt.Sprintf("rotated=%v,update_first=%v", rotated, sc.UpdateFirst), "client %d: the handshake presented certificate %q; after the documented rotation step (ReloadCertificates on GetExportOptions().TLS) the certificate files hold %q", ci, got, map[bool]string{false: "server-AAA", true: "server-BBB"}[rotated])
+					o.Vio("C30.stale-certificate-after-rotation", fmt.Sprintf("rotated=%v,update_first=%v", rotated, sc.UpdateFirst), "client %d: the handshake presented certificate %q; after the documented rotation step (ReloadCertificates on GetExportOptions().TLS) the certificate files hold %q", ci, got, map[bool]string{false: "server-AAA", true: map[bool]string{false: "server-BBB", true: "server-CCC"}[sc.HalfFirst]}[rotated])
 				}
 			} else {
 				simrt.Probe("handshake_refused")
@@ -374,6 +396,9 @@ func genC30(r *simrt.Rand, tier string) any {
 	}
 	if sc.ClientAuth >= 3 && r.Pct(70) {
 		sc.CA = 1
+	}
+	if sc.Rotate && r.Pct(25) {
+		sc.HalfFirst = true
 	}
 	if sc.Rotate && r.Pct(25) {
 		sc.EarlyReload = true
